@@ -23,13 +23,13 @@ CHECKS = {
     ),
     "C12": (
         "exhaustive enumeration of expression trees x rows; three-way agreement (iteration callable, SQLite, reference)",
-        "Every expression/predicate tree up to the stated depth over the portable operator set, all 486 ranges with start,stop in [-4,4] and step in +-{1,2,3}, all sequences of 0-3 members, evaluated on all 49 rows by both real engine conversions and the reference interpreter.",
+        "Every expression/predicate tree up to the stated depth over the portable operator set, all 486 ranges with start,stop in [-4,4] and step in +-{1,2,3}, all sequences of 0-3 members, AND/OR of every arity 0-3 (arities 0 and 1 also as directly constructed LogicalAnd/LogicalOr nodes, which the factories fold away), evaluated on all 49 rows by both real engine conversions and the reference interpreter.",
         "Trusted: reference interpreter (vf/alphabet.py ref_eval), SQLite integer semantics; bounds: depth <= 2, integers in [-4,4].",
         "DESIGN.md 3 C12",
     ),
     "C13": (
         "exhaustive enumeration of predicate trees x rows against as_trivial / flatten_logical_and / Selection / columns_required",
-        "Every predicate tree up to depth 3 over all node types and every scalar expression up to depth 2 is built through the public factories; constant folding, conjunction flattening, Selection normalisation and required-column sets are judged against evaluation on every row of the bounded domain.",
+        "Every predicate tree up to depth 3 over all node types and every scalar expression up to depth 2 is built through the public factories (plus LogicalAnd/LogicalOr nodes constructed directly with 0 and 1 operands); constant folding, conjunction flattening, Selection normalisation and required-column sets are judged against evaluation on every row of the bounded domain.",
         "Trusted: reference interpreter; required columns compared with syntactic free columns; bounds: depth <= 3, 12 rows.",
         "DESIGN.md 3 C13",
     ),
@@ -65,7 +65,7 @@ CHECKS = {
     ),
     "C14": (
         "explicit-state BFS over three-engine programs with every preferred-engine option; node-local invariants on every reached tree",
-        "Every tree reachable by programs over the iteration, SQL and three-engine alphabets (transfers, materializations, cross-engine joins, engine-restricted functions, all backtrack/transfer/require_preferred_engine combinations) up to the depth bound is walked completely (target/lhs/rhs/skip_to) and the node-local invariants of C14 are evaluated; documented no-ops must return the identical object and predicted ill-formed calls must raise.",
+        "Every tree reachable by programs over the iteration, SQL and three-engine alphabets (transfers, materializations, cross-engine joins, engine-restricted functions, all backtrack/transfer/require_preferred_engine combinations) up to the depth bound is walked completely (target/lhs/rhs/skip_to) and the node-local invariants of C14 are evaluated; documented no-ops must return the identical object and predicted ill-formed calls must raise; plus an exhaustive enumeration over pairs of DISTINCT engine objects carrying the SAME name (transfers must not be elided, cross-engine binary operations must raise).",
         "Trusted: the walker reads public attributes only; reference typing decides which calls are ill-formed.",
         "DESIGN.md 3 C14",
     ),
